@@ -131,11 +131,17 @@ func c01Enumerate(tier string, seed int64, emit func(string, any)) {
 		}
 	})
 	// (iv) every construct of the construct-covering pool inside every kind of sub-evaluation
-	for _, p := range c03Programs {
+	for _, p := range append(c03Programs[:len(c03Programs):len(c03Programs)], "2d", "d", "d优势", "2d + d", "3dk2", "[2d, d]", "`{2d}`", "技能 + 2d") {
 		if strings.HasPrefix(p, "^st") || strings.HasPrefix(p, "//") {
 			continue
 		}
+		const pad = "0; 0; 0; 0; 0; 0; 0; 0; 0; 0; 0; 0; "
 		ctxs := [][]string{
+			// defined by one run, used by a later, much shorter one on the same VM (the body runs from its precompiled form)
+			{"func g(){ " + pad + p + " }", "g()", "g() + 0"},
+			{"func g(){ " + pad + p + " }; func h(){ g() }", "h()"},
+			{"&c = " + p, "c", "c"},
+			{"x9 = 1", "func g(){ " + pad + p + " }; &c = g()", "c", "[c]"},
 			{"func g(){ " + p + " }; g()", "g()", "g()"},
 			{"func g(q1){ " + p + " }; [g(1), g(2)]"},
 			{"&c = " + p + "; c", "c", "c + c"},
